@@ -258,6 +258,16 @@ def model_search(chk):
         out.append({"vp0": vp, "nvals": 3, "ops": [{"kind": "delegate", "h": base, "val": 0, "delegate": 5}, pv(base, 5, 0),
                                                     {"kind": "delegate", "h": base, "val": 0, "delegate": 6}, vt(base + vp, 5, 0)]})  # former feeder
         out.append({"vp0": vp, "nvals": 3, "ops": [pv(base, 0, 0), {"kind": "jail", "h": base, "val": 0}, vt(base + vp, 0, 0)]})  # unbonded
+        # displaced from a full active set (Unbonding, not jailed), by the validator and by its feeder
+        out.append({"vp0": vp, "nvals": 3, "ops": [{"kind": "delegate", "h": base, "val": 0, "delegate": 5}, pv(base, 5, 0),
+                                                    {"kind": "maxvals", "h": base, "n": 2}, pv(base, 0, 0), pv(base, 5, 0),
+                                                    vt(base + vp, 5, 0), vt(base + vp, 0, 0)]})
+        # fully undelegated (jailed, Unbonding), then matured (removed)
+        out.append({"vp0": vp, "nvals": 3, "ops": [pv(base, 1, 1), {"kind": "undelegate", "h": base, "val": 1}, vt(base + vp, 1, 1),
+                                                    pv(base + vp, 1, 1), {"kind": "mature", "h": base + vp}, pv(base + vp, 1, 1)]})
+        # displaced, matured (Unbonded, not jailed)
+        out.append({"vp0": vp, "nvals": 3, "ops": [pv(base, 0, 0), {"kind": "maxvals", "h": base, "n": 2}, {"kind": "mature", "h": base},
+                                                    vt(base + vp, 0, 0), pv(base + vp, 0, 0)]})
         out.append({"vp0": vp, "nvals": 3, "ops": [pv(base, 0, 0, rates="(ufoo:ubar,1.5)"), vt(base + vp, 0, 0, rates="(ufoo:ubar,1.5)")]})
         out.append({"vp0": vp, "nvals": 3, "ops": [pv(base, 0, 0)] + [end(h) for h in range(base, base + 2 * vp)] + [vt(base + 2 * vp, 0, 0)]})
     return out
